@@ -4,6 +4,7 @@ import (
 	"go/token"
 	"go/types"
 	"reflect"
+	"sync"
 
 	"gosx/smt"
 
@@ -13,6 +14,7 @@ import (
 var sizes = types.SizesFor("gc", "amd64")
 
 var growCache = map[[4]int]int{}
+var growMu sync.Mutex
 
 // growCap reproduces runtime.growslice's capacity for append.
 func growCap(elemSize, oldLen, oldCap, add int) int {
@@ -20,6 +22,8 @@ func growCap(elemSize, oldLen, oldCap, add int) int {
 		elemSize = 1
 	}
 	k := [4]int{elemSize, oldLen, oldCap, add}
+	growMu.Lock()
+	defer growMu.Unlock()
 	if c, ok := growCache[k]; ok {
 		return c
 	}
@@ -66,9 +70,20 @@ func (in *Interp) builtin(g *G, fr *Frame, b *ssa.Builtin, args []Value, call *s
 			return mkInt(uint64(len(x.R.([]Value))), 64)
 		case KPtr:
 			return mkInt(uint64(len(x.R.(*Value).R.([]Value))), 64)
+		case KChan:
+			if x.R == nil {
+				return mkInt(0, 64)
+			}
+			return mkInt(uint64(len(x.R.(*ChanV).buf)), 64)
 		}
 	case "cap":
 		x := args[0]
+		if x.K == KChan {
+			if x.R == nil {
+				return mkInt(0, 64)
+			}
+			return mkInt(uint64(x.R.(*ChanV).cap), 64)
+		}
 		if x.K == KSlice {
 			if x.R == nil {
 				return mkInt(0, 64)
@@ -142,6 +157,14 @@ func (in *Interp) builtin(g *G, fr *Frame, b *ssa.Builtin, args []Value, call *s
 		}
 		return Value{}
 	case "close":
+		if args[0].R == nil {
+			in.goPanic(g, "close of nil channel")
+			return Value{}
+		}
+		if args[0].R.(*ChanV).closed {
+			in.goPanic(g, "close of closed channel")
+			return Value{}
+		}
 		args[0].R.(*ChanV).closed = true
 		return Value{}
 	case "print", "println":
